@@ -31,7 +31,7 @@ var specs = map[string]*core.PropertySpec{
 		// 4 (quick) / 60 (thorough) body pairs x all 126 resume sequences of length <= 6 over two coroutines
 		Subs: []core.SubSpec{{Sub: "exhaustive", BudgetS: 20, MaxRuns: 63, Workers: 8}, {Sub: "exhaustive", Thorough: true, BudgetS: 600, MaxRuns: 945, Workers: 8}}},
 	"C19": {Property: "C19", Engine: iohist.New, QuickS: 45, ThoroughS: 900, RunCapS: 120},
-	"C20": {Property: "C20", Engine: reqhist.New, QuickS: 40, ThoroughS: 600, RunCapS: 120, Subs: []core.SubSpec{{Sub: "exhaustive", BudgetS: 8, Workers: 8}}},
+	"C20": {Property: "C20", Engine: reqhist.New, QuickS: 40, ThoroughS: 600, RunCapS: 120, Subs: []core.SubSpec{{Sub: "short", BudgetS: 8, Workers: 8}}},
 	"C13": {Property: "C13", Engine: multistate.New("C13"), QuickS: 75, ThoroughS: 1500, RunCapS: 120, RaceFraction: 0.5},
 	"C08": {Property: "C08", Engine: streamload.New, QuickS: 45, ThoroughS: 900, RunCapS: 20, HangViolation: true},
 }
